@@ -365,6 +365,8 @@ pub fn check_file_record(rec: &MDBFileInfo, bytes: &[u8], rf: &RefFile, salt: &[
     if !rec.verification.is_empty() && rec.verification.len() != rec.segments.len() {
         return fail("record-verification-count", "number of verification entries differs from number of segments");
     }
+    // pass 1: resolve every segment; the referenced chunks must be the file's own chunks, in order
+    let mut resolved: Vec<&[(H, u32)]> = Vec::new();
     for (i, s) in rec.segments.iter().enumerate() {
         if s.cas_hash == MerkleHash::default() {
             return fail("record-unresolved-xorb", "file record has a segment with an unresolved (zero) xorb reference");
@@ -376,12 +378,21 @@ pub fn check_file_record(rec: &MDBFileInfo, bytes: &[u8], rf: &RefFile, salt: &[
         if a >= b || b > x.len() {
             return fail("record-range", format!("segment {i} chunk range [{a},{b}) outside xorb of {} chunks", x.len()));
         }
-        let sum: u64 = x[a..b].iter().map(|c| c.1 as u64).sum();
+        all.extend(x[a..b].iter().map(|c| (c.0, c.1 as u64)));
+        resolved.push(&x[a..b]);
+    }
+    if all != rf.chunks {
+        let first = all.iter().zip(rf.chunks.iter()).position(|(p, q)| p != q).unwrap_or(all.len().min(rf.chunks.len()));
+        return fail("record-chunks", format!("referenced chunks differ from the reference chunking of the original bytes (first difference at chunk {first}; {} referenced, {} in the file)", all.len(), rf.chunks.len()));
+    }
+    // pass 2: byte counts and verification hashes per segment
+    for (i, (s, x)) in rec.segments.iter().zip(resolved.iter()).enumerate() {
+        let sum: u64 = x.iter().map(|c| c.1 as u64).sum();
         if sum != s.unpacked_segment_bytes as u64 {
             return fail("record-segment-bytes", format!("segment {i}: recorded {} bytes, chunks sum to {sum}", s.unpacked_segment_bytes));
         }
         total += sum;
-        let hs: Vec<H> = x[a..b].iter().map(|c| c.0).collect();
+        let hs: Vec<H> = x.iter().map(|c| c.0).collect();
         if rec.contains_verification() {
             if hb(&rec.verification[i].range_hash) != refs::range_hash(&hs) {
                 return fail("record-verification-hash", format!("segment {i}: verification hash differs from the recomputed range hash"));
@@ -389,13 +400,9 @@ pub fn check_file_record(rec: &MDBFileInfo, bytes: &[u8], rf: &RefFile, salt: &[
         } else {
             return fail("record-no-verification", "file record carries no verification entries");
         }
-        all.extend(x[a..b].iter().map(|c| (c.0, c.1 as u64)));
     }
     if total != bytes.len() as u64 {
         return fail("record-size", format!("segments cover {total} bytes, file has {}", bytes.len()));
-    }
-    if all != rf.chunks {
-        return fail("record-chunks", "referenced chunks differ from the reference chunking of the original bytes");
     }
     match &rec.metadata_ext {
         None => return fail("record-no-sha", "file record carries no SHA-256"),
@@ -653,8 +660,21 @@ pub fn judge_success_session(
             Some(rec) => {
                 match check_file_record(rec, bytes, &rf, &spec.salt, &st.view) {
                     Ok(()) => {},
-                    Err((sig, msg)) => rep.violation("C02", &sig, &msg, fw(&msg)),
+                    Err((sig, msg)) => {
+                        rep.violation("C02", &sig, &msg, fw(&msg));
+                        // a segment that resolves to other chunks / other byte counts than the file's own
+                        // means the deduper acted on an untruthful dedup answer (shard lookup or the
+                        // lookup against the xorb being built)
+                        if sig == "record-chunks" || sig == "record-segment-bytes" || sig == "record-range" {
+                            rep.violation("C05", &format!("session-dedup-answer-{sig}"), &format!("a dedup answer used for a file record was not truthful: {msg}"), fw(&msg));
+                        }
+                    },
                 }
+                if m.deduped_chunks > 0 {
+                    rep.count("C05", "session_files_with_dedup_answers_resolved", 1);
+                    rep.count("C05", "session_deduped_chunks_resolved", m.deduped_chunks as u64);
+                }
+                rep.case("C05", if m.deduped_chunks > 0 { Some(format!("sess|s{}|c{}|d{}", bucket(rec.segments.len()), bucket(rf.chunks.len()), bucket(m.deduped_chunks))) } else { None });
                 if rec.segments.len() >= 2 {
                     kinds.insert("multi-segment");
                 }
@@ -918,7 +938,7 @@ pub fn session_json(s: &SessionSpec) -> Value {
     })
 }
 
-pub const SESSION_PROPS: [&str; 7] = ["C01", "C02", "C03", "C11", "C14", "C15", "C16"];
+pub const SESSION_PROPS: [&str; 8] = ["C01", "C02", "C03", "C05", "C11", "C14", "C15", "C16"];
 
 /// engine "session": histories of fault-free sessions, all monitors
 pub fn run(args: &Args, rep: &mut Report) {
